@@ -947,6 +947,30 @@ def case_family(ctx, spec, only_type=None):
                               'a family that needs two entries under one delegation id on one node is neither rejected '
                               'nor represented losslessly', dict(w, clause=bad[0], where=bad[1], **bad[2]))
             continue
+        # --- a pool the container already holds changes (one more node it applies to): converting again shows it
+        if rep and mine:
+            ctx.count('clause:regroup-again-after-a-held-pool-changed')
+            p0 = mine[0]
+            late = 'late-node-' + str(p0['pool'])
+            try:
+                ps2 = build_pools(t, pools)           # a container of its own: the checks below still look at `ps` as built
+                ps2.build_index_by_delegation_id()
+                ps2.generate_delegations_by_node_id()
+                ps2.get_pool_by_id(pool_id=p0['pool'], strict=True).add_defined_for(late)
+                ps2.build_index_by_delegation_id()
+                ps2.validate_pools()
+                by2 = ps2.generate_delegations_by_node_id()
+                ob2 = obs_delegations(by2[late]) if late in by2 else None
+                ok = ob2 is not None and any(e and e['format'] == 'PoolReference' and e['pool'] == p0['pool'] for e in ob2['by_id'].values())
+                same = all(n in by2 and obs_delegations(by2[n]) == ob_nodes[n] for n in ob_nodes)
+                if not ok or not same:
+                    _v(ctx, 'C12/pools-regroup-again-stale', 'turning pools into per-node delegations reflects the pools as they are now: '
+                       'one reference on each node a pool applies to (a node added to a held pool since the last conversion included)',
+                       dict(w, pool=p0['pool'], added_node=late, observed_for_added_node=ob2, other_nodes_unchanged=same))
+                    continue
+            except Exception as e:
+                _v(ctx, f'C12/pools-regroup-again-raised:{type(e).__name__}', f'converting again after add_defined_for raised {type(e).__name__}: {e}', w)
+                continue
         # --- single-resource delegations under other ids on the same nodes
         exp_nodes = {n: list(es) for n, es in mb.items()}
         try:
